@@ -24,7 +24,8 @@ PY
 ); do
   [ -f "$patch" ] || continue
   # only meaningful on the unchanged tree: skip a patch that does not apply
-  if ! (cd /repo && git apply --check "$patch" 2>/dev/null); then echo "thorough: must-fail patch $(basename $(dirname $patch))/$(basename $patch) does not apply to the current tree: skipped"; continue; fi
+  # (patch(1) as in run_mutant.sh: tolerates context shifted by later fix commits)
+  if ! (cd /repo && patch -p1 -s -f --dry-run < "$patch" >/dev/null 2>&1); then echo "thorough: must-fail patch $(basename $(dirname $patch))/$(basename $patch) does not apply to the current tree: skipped"; continue; fi
   r=$(/verif/selftest/run_mutant.sh "$patch" "$prop" 2>&1); mrc=$?
   echo "thorough: $(echo "$r" | head -1)"
   if [ $mrc -eq 0 ]; then caught=$((caught+1)); else missed=$((missed+1)); fi
